@@ -2645,13 +2645,21 @@ impl<'de> serde::de::Visitor<'de> for AnnotationsVisitor<'_> {
                     // temporary public IDs are deserialized exactly
                     // as they were serialized. So if there were any gaps,
                     // we need to deserialize these too:
-                    if self.store.annotations_len() > handle + pre_length {
+                    if handle.checked_add(pre_length).map_or(true, |sum| self.store.annotations_len() > sum) {
                         return Err(serde::de::Error::custom(
                             "unable to resolve temporary public identifiers for annotations",
                         ));
                     } else if handle > self.store.annotations_len() {
                         // expand the gaps, though this wastes memory if ensures that all references
                         // are valid without explicitly storing public identifiers.
+                        // (the number comes from the input: a length that cannot be allocated is an error, not a panic)
+                        self.store.annotations
+                            .try_reserve(handle - self.store.annotations_len())
+                            .map_err(|_| {
+                                serde::de::Error::custom(
+                                    "temporary public identifier for annotations is out of range",
+                                )
+                            })?;
                         self.store.annotations.resize_with(handle, Default::default);
                     }
                 }
